@@ -495,6 +495,8 @@ impl<'a> Runtime<'a> {
                     }
 
                     if let Some(offset) = frame_offset {
+                        #[cfg(feature = "verif")]
+                        crate::verif::bump(crate::verif::Counter::FrameResetLoop);
                         unsafe { self.frame.reset(offset) };
                     }
                 }
@@ -521,6 +523,15 @@ impl<'a> Runtime<'a> {
         self.push_scope_with_capacity(0, self.frame);
         self.hoist_block_functions(block);
         for stmt in block.stmts {
+            #[cfg(feature = "verif")]
+            {
+                let id = self.bound_stmt_id(stmt).map(|id| id.0);
+                if self.stmt_is_pruned(stmt) {
+                    crate::verif::stmt_skipped(id);
+                } else {
+                    crate::verif::stmt_executed(id);
+                }
+            }
             if self.stmt_is_pruned(stmt) {
                 #[cfg(test)]
                 {
@@ -560,6 +571,8 @@ impl<'a> Runtime<'a> {
         if let Some(function_id) = id
             && self.function_is_pruned(function_id)
         {
+            #[cfg(feature = "verif")]
+            crate::verif::function_pruned(function_id.0);
             return;
         }
 
@@ -831,6 +844,8 @@ impl<'a> Runtime<'a> {
         };
 
         if let Some(offset) = frame_offset {
+            #[cfg(feature = "verif")]
+            crate::verif::bump(crate::verif::Counter::FrameResetCall);
             return Ok(self.relocate_return_value(val, offset));
         }
 
@@ -1550,6 +1565,8 @@ impl<'a> Runtime<'a> {
         };
 
         if is_frame_string {
+            #[cfg(feature = "verif")]
+            crate::verif::bump(crate::verif::Counter::RelocateString);
             let Value::Str(ArenaCow::Owned(s)) = val else { unreachable!() };
             // Stage string bytes on persistent (at the current tail).
             let stage_mark = self.arena.offset();
@@ -1566,6 +1583,8 @@ impl<'a> Runtime<'a> {
         }
 
         if matches!(val, Value::Array(_)) {
+            #[cfg(feature = "verif")]
+            crate::verif::bump(crate::verif::Counter::RelocateArray);
             // Arrays promoted to persistent via pool.
             let promoted = val.promote(&self.pool, self.frame);
             unsafe { self.frame.reset(frame_offset) };
